@@ -9,7 +9,7 @@ GC and re-open points are deviation-bounded pseudo-operations.  DESIGN.md §4 C0
 from __future__ import annotations
 
 from .. import treecheck
-from ..treeprop import DROP_ASC, DROP_DESC, HOLD_ASC, HOLD_DESC, TreeProp
+from ..treeprop import DROP_ASC, DROP_DESC, GC_DROP, HOLD_ASC, HOLD_DESC, TreeProp
 
 QUICK = [
     ("S1", DROP_ASC, 2, "FULL"),
@@ -23,6 +23,8 @@ THOROUGH = []
 for _c in (DROP_ASC, HOLD_DESC, DROP_DESC, HOLD_ASC):
     THOROUGH += [("S1", _c, 3, "FULL"), ("S2", _c, 2, "FULL"), ("S2r", _c, 2, "FULL"), ("S0", _c, 4, "FULL"),
                  ("S2", _c, 3, "STRUCT"), ("S1", _c, 4, "STRUCT"), ("S1r", _c, 3, "EDIT"), ("S2r", _c, 3, "EDIT")]
+
+THOROUGH += [("S2", GC_DROP, 2, "GCOPS"), ("S4", GC_DROP, 1, "GCOPS")]
 
 P = TreeProp(
     "C01",
